@@ -55,7 +55,7 @@ SA_NAMES = ("Column", "Integer", "String", "Boolean", "Float", "Table", "Enum", 
 
 def probes():
     return ["gen_wrote_output", "gen_refused_without_writing", "gen_refused_existing_output", "existing_output_is_torso",
-            "import_inference_on", "prepend", "imports_from_file", "multi_entry_input", "json_input", "phase_1_or_2",
+            "import_inference_on", "prepend", "imports_from_file", "multi_entry_input", "json_input", "directory_input", "phase_1_or_2",
             "fault_fired", "crash_fired", "user_deleted_output", "i4_checked", "existing_output_spelled_tilde",
             "existing_output_spelled_relative", "mixed_kind_input", "user_created_empty_output",
             "phase_with_phaseless_emit_on_existing"] + ["wrote_emit_" + e for e in
@@ -85,7 +85,11 @@ def entries(draw):
                     if p["typ"] == "str" and p.get("default") is not None and not p["default"].startswith("'"):
                         p["default"] = "'a'"
         out.append(sp)
-    return {"kind": kind, "specs": out}
+    ent = {"kind": kind, "specs": out}
+    if kind in ("class", "function", "argparse") and n >= 2 and draw(st.integers(0, 4)) == 4:
+        # the input mapping is a DIRECTORY holding one module per entry (gen reads every file in it)
+        ent["layout"] = "dir"
+    return ent
 
 
 @st.composite
@@ -156,6 +160,10 @@ def render_input(ent):
         # no module-level assignment: `--parse infer` on a file treats every top-level Assign as a table
         parts = ["from typing import Literal, Optional", "from sqlalchemy import Boolean, Column, Float, Integer, String",
                  "from models_base import Base", "", ""]
+    if ent.get("layout") == "dir":
+        one = {"class": gen.render_class, "argparse": gen.render_argparse,
+               "function": lambda sp: gen.render_function(sp, style="rest", annotate=False, body=["print(%r)" % sp["name"]])}[kind]
+        return {"inputs/%s.py" % spec["name"].lower(): "\n".join(parts + [one(spec), ""]) for spec in ent["specs"]}, "inputs"
     for spec in ent["specs"]:
         if kind == "mixed" and spec.get("entry_kind") == "sqlalchemy":
             parts.append(render_sqlalchemy(spec))
@@ -351,7 +359,10 @@ def simulate(plan):
     world.write_files(files)
     old_home = os.environ.get("HOME")
     os.environ["HOME"] = world.root
-    in_text = files[in_rel]
+    in_text = files[in_rel] if in_rel in files else "\n".join(t for r, t in sorted(files.items())
+                                                             if r.startswith(in_rel + "/"))
+    if ent.get("layout") == "dir":
+        bump(probe, "directory_input")
     if len(ent["specs"]) > 1:
         bump(probe, "multi_entry_input")
     if ent["kind"] == "json":
